@@ -212,6 +212,11 @@ func VerifC08_StalledEnds(h *zz.H) {
 		h.Assert(err2 != nil && h.EnvEvents() > 0, "C08: a STREAM subscription ends only with an error")
 		return
 	}
+	if h.EnvEvents() > 0 {
+		// a send timer fired and the healthy subscriber is still running: it was the stalled
+		// subscriber's timer (armed for as long as its send is blocked), whatever else is pending
+		h.Assert(done1, "C08: a send that stays blocked longer than the timeout terminates that subscription")
+	}
 	var last *pb.Notification
 	for _, r := range s2.sent {
 		if n := r.GetUpdate(); n != nil {
